@@ -179,6 +179,7 @@ func propC01(reps int) func(model.Case) hh.Verdict {
 		v.Classes = append(shapeClasses(c.Root), "mode:"+c.Exec.Mode)
 		nils := 0
 		var last *c01walk
+		processPrelude()
 		for r := 0; r < reps; r++ {
 			dest := newDest(typ, c, false)
 			orig := model.DeepCopy(dest.Elem())
